@@ -1,6 +1,6 @@
 ID = "C05"
 N_QUICK = 400
-N_THOROUGH = 8000
+N_THOROUGH = 20000
 MODEL_SHOW = "show"
 DISAGREE_IS_VIOLATION = True   # observables are exactly what the property fixes
 HARNESS_TIMEOUT = 600
